@@ -216,6 +216,7 @@ func (r *StatusVectorChunk) Unmarshal(rawPacket []byte) error {
 
 	r.Type = TypeTCCStatusVectorChunk
 	r.SymbolSize = getNBitsFromByte(rawPacket[0], 1, 1)
+	r.SymbolList = nil
 
 	if r.SymbolSize == TypeTCCSymbolSizeOneBit {
 		for i := uint16(0); i < 6; i++ {
@@ -474,6 +475,8 @@ func (t *TransportLayerCC) Unmarshal(rawPacket []byte) error { //nolint:gocognit
 	t.PacketStatusCount = binary.BigEndian.Uint16(rawPacket[headerLength+packetStatusCountOffset:])
 	t.ReferenceTime = get24BitsFromBytes(rawPacket[headerLength+referenceTimeOffset : headerLength+referenceTimeOffset+3])
 	t.FbPktCount = rawPacket[headerLength+fbPktCountOffset]
+	t.PacketChunks = nil
+	t.RecvDeltas = nil
 
 	packetStatusPos := uint16(headerLength + packetChunkOffset)
 	var processedPacketNum uint16
